@@ -327,7 +327,7 @@ type c12Expect struct {
 	qual        uint32 // units that meet the cutoff (after resolving "either" units with the observed choice)
 	first, last int
 	nu          int
-	units       [16]c12UnitInfo
+	units       [32]c12UnitInfo
 	skips       uint8 // c12Why* of the units that were "either"
 	fractional  bool
 }
@@ -494,7 +494,7 @@ func c12Check(c *mc.Ctx, cs *c12Case) {
 	c.Eval()
 	r := c12Run{c: c, cs: cs}
 	alphabet, err := r.init()
-	if err != nil || len(cs.Seqs) == 0 || len(cs.Seqs) > len(c12Names) || len(cs.Seqs[0]) == 0 || len(cs.Seqs[0]) > 16 || cs.Cutoff != cs.Cutoff {
+	if err != nil || len(cs.Seqs) == 0 || len(cs.Seqs) > len(c12Names) || len(cs.Seqs[0]) == 0 || len(cs.Seqs[0]) > 32 || cs.Cutoff != cs.Cutoff {
 		c.Fatal("bad case %s: %v", jsonStr(cs), err)
 		return
 	}
@@ -648,7 +648,7 @@ func (r *c12Run) checkSites(al align.Alignment) {
 		r.viol("result-not-selection-of-kept/row-count", fmt.Sprintf("%d rows, want %d", al.NbSequences(), n))
 		return
 	}
-	var sel [16]byte
+	var sel [32]byte
 	for i := 0; i < n; i++ {
 		k := 0
 		for j := 0; j < L; j++ {
@@ -1007,6 +1007,7 @@ var (
 	c12ProfEnds = &c12Profile{name: "ends", siteSets: []string{"-", "A", "AW"}, siteOpts: c12AllOpts, seqChars: "", cuts: c12CutsEnds}
 	c12ProfTieC = &c12Profile{name: "tiecol", siteSets: []string{"A"}, siteOpts: c12TieOpts, seqChars: "", cuts: c12CutsFullC}
 	c12ProfTieR = &c12Profile{name: "tierow", siteSets: nil, seqChars: "A", cuts: c12CutsFullC}
+	c12ProfWide = &c12Profile{name: "wide", siteSets: []string{"-", "A", "AN"}, siteOpts: c12AllOpts, seqChars: "-A", cuts: c12CutsGrid}
 )
 
 // evals per alignment of a profile on an n x L alignment (for task sizing).
@@ -1130,6 +1131,37 @@ func c12Tasks(tier string) []mc.Task {
 		}
 		ts = c12Block(ts, "dupsquare", a, "Aa-W", 2, 2, c12ProfDup)
 	}
+	// (3'') wide alignments: 3 rows of every length 17..32 (beyond any 8- or 16-column block a fast path would
+	// take), two patterns whose qualifying sites lie at the ends, in the middle and at block boundaries
+	ts = append(ts, mc.Task{Name: "wide#17..32", Run: func(c *mc.Ctx) {
+		c12Cur = c12Acc{}
+		for L := 17; L <= 32; L++ {
+			for _, a := range alphas {
+				for pat := 0; pat < 2; pat++ {
+					seqs := make([]string, 3)
+					for i := range seqs {
+						b := make([]byte, L)
+						for j := range b {
+							switch {
+							case pat == 0 && (j < 2 || j >= L-2 || j == 8 || j == 15 || j == 16):
+								b[j] = '-'
+							case pat == 1 && (j%7 == i || j == L/2):
+								b[j] = "-N-"[i]
+							default:
+								b[j] = c12Concrete("ANa", a)[(i+j)%3]
+							}
+						}
+						seqs[i] = string(b)
+					}
+					c12RunAlignment(c, a, seqs, c12ProfWide)
+				}
+			}
+			if c.Expired() {
+				break
+			}
+		}
+		c12Cur.flush(c)
+	}})
 	// (4) exact ties and their neighbours: one column of n rows (site operations) /
 	// one row of L sites (sequence operations) over {A,-}
 	for n := colMax + 1; n <= tieMax; n++ {
